@@ -154,6 +154,12 @@ pub enum CompEv {
     /// `idx`: index of the value read in the written sequence, -1 = not a value that was ever written, -2 = `try_read` failed.
     TimeRead { reader: u8, published: u64, idx: i64, raw: Option<(i64, u32)>, blocking: bool },
     TimeFinal { idx: i64 },
+    // task set
+    SetWakeBegin { thread: u8, idx: u8 },
+    SetWakeEnd { thread: u8, idx: u8 },
+    SetBatch { indices: Vec<usize>, poll: u32 },
+    SetPending { poll: u32 },
+    SetDone { polls: u32 },
 }
 
 #[derive(Clone, Copy, Debug, Serialize, PartialEq)]
